@@ -411,16 +411,21 @@ class Canon:
                 enum = True
             it = strip(it.args[0])
 
-        def one(src, depth=0):
+        rev0 = rev
+
+        def one(src, depth=0, zipped=False):
             src = strip(src)
-            while src.k == 'call' and last(src.name) in ('into_iter', 'by_ref', 'copied', 'cloned') and src.args:
+            rev = rev0
+            while src.k == 'call' and last(src.name) in ('into_iter', 'by_ref', 'copied', 'cloned', 'rev') and src.args:
+                if last(src.name) == 'rev':
+                    rev = not rev
                 src = strip(src.args[0])
             if src.k == 'call' and last(src.name) in ('iter', 'iter_mut') and src.args:
                 coll = src.args[0]
                 n = self.coll_len(coll)
                 base, off = self.coll_base(coll)
                 I_ = 'each(Range::Range{0, %s})' % n
-                if rev and n.isdigit() and not off:
+                if rev and n.isdigit() and not off and not zipped:
                     # a[len-1-i], i in 0..len, is a[j] with j running down through the range
                     idx = 'each(rev(Range::Range{0, %s}))' % n
                 elif rev:
@@ -439,12 +444,13 @@ class Canon:
                 return 'index(%s, Range::Range{%s, AddWithOverflow(%s, %d).0})' % (self.c(coll), a_, a_, k_), I_
             return None
         if it.k == 'call' and last(it.name) == 'zip' and len(it.args) == 2:
-            a_, b_ = one(it.args[0]), one(it.args[1])
+            # both sides advance together: one index variable, a reversed side counts down from its end
+            a_, b_ = one(it.args[0], zipped=True), one(it.args[1], zipped=True)
             if a_ and b_:
                 el = 'tuple{%s, %s}' % (a_[0], b_[0])
                 return 'tuple{%s, %s}' % (a_[1], el) if enum else el
             return None
-        r = one(it)
+        r = one(it, zipped=enum)      # with enumerate() the position and the element share one index variable
         if r is None:
             return None
         return 'tuple{%s, %s}' % (r[1], r[0]) if enum else r[0]
